@@ -64,11 +64,23 @@ def setup_state(eng: Engine, contract: Contract, fi):
     if a.vararg or a.kwarg:
         raise Unsupported("*args/**kwargs in verified function")
     if self_ref is not None:
-        for via, back in getattr(eng.reg.shapes[contract.shape], "backrefs", ()):
-            other = eng.heap_read(st, self_ref, via)
-            st.heap[(other.oid, back)] = self_ref
-            st.old_heap[(other.oid, back)] = self_ref
+        def follow(path):
+            ref = self_ref
+            for p in [x for x in path.split(".") if x]:
+                ref = eng.heap_read(st, ref, p)
+            return ref
+        for entry in getattr(eng.reg.shapes[contract.shape], "backrefs", ()):
+            via, back = entry[0], entry[1]
+            target = follow(entry[2]) if len(entry) > 2 else self_ref
+            other = follow(via)
+            st.heap[(other.oid, back)] = target
+            st.old_heap[(other.oid, back)] = target
     st.ghost["$args"] = args
+    for gname, gty in (getattr(contract, "ghost_init", None) or {}).items():
+        st.ghost[gname] = mk_fresh(gty, gname.replace(":", "_"))
+        st.ghost["$" + gname.split(":")[-1] + "0"] = st.ghost[gname]
+    if getattr(contract, "body_hook", None):
+        st.ghost["$body_hook"] = contract.body_hook
     if getattr(contract, "yield_hook", None):
         st.ghost["$yield_hook"] = contract.yield_hook
     if contract.generator is not None:
@@ -209,6 +221,8 @@ def verify_function(src: Source, reg: Registry, contract: Contract, prefix: str,
                 st.assume(f(Ctx(eng, st, self_ref, args)))
         for name, f in contract.requires:
             st.assume(f(Ctx(eng, st, self_ref, args)))
+        if getattr(contract, "decreases", None) is not None:
+            st.ghost["$measure0"] = contract.decreases(Ctx(eng, st, self_ref, args))
         # vacuity: the precondition must be satisfiable
         cover = Obligation(name=f"{eng.cur_prefix}/cover:requires", kind="cover", pc=list(st.pc), goal=z3.BoolVal(True),
                            function=contract.key, expect_sat=True)
